@@ -249,6 +249,7 @@ EXPORT char *_stpncpy_s_chk(char *restrict dest, rsize_t dmax,
             *dest = *src;
             if (*dest == '\0') {
               eok:
+                orig_dest = dest; /* the terminating null byte */
 #ifdef SAFECLIB_STR_NULL_SLACK
                 /* null slack to clear any data */
                 if (dmax > 0x20)
@@ -262,7 +263,7 @@ EXPORT char *_stpncpy_s_chk(char *restrict dest, rsize_t dmax,
                 }
 #endif
                 *errp = RCNEGATE(EOK);
-                return dest;
+                return orig_dest;
             }
 
             dmax--;
